@@ -4,3 +4,4 @@ import TephraProps.C03Lexer
 #print axioms Tephra.Props.C03_lexer_new
 #print axioms Tephra.Props.C03_lexer_builder_order_violates
 #print axioms Tephra.Props.tabP_closed
+#print axioms Tephra.Props.C03_run_spans
